@@ -1,0 +1,20 @@
+//! Verification hook, compiled only with `--cfg libp2p_verif`: makes the crate-private
+//! [`CopyFuture`](crate::copy_future::CopyFuture) constructible from outside.
+
+use std::{future::Future, io, time::Duration};
+
+use futures::io::{AsyncRead, AsyncWrite};
+
+/// `CopyFuture::new(src, dst, max_circuit_duration, max_circuit_bytes)`.
+pub fn copy_future<S, D>(
+    src: S,
+    dst: D,
+    max_circuit_duration: Duration,
+    max_circuit_bytes: u64,
+) -> impl Future<Output = io::Result<()>> + Unpin
+where
+    S: AsyncRead + AsyncWrite + Unpin,
+    D: AsyncRead + AsyncWrite + Unpin,
+{
+    crate::copy_future::CopyFuture::new(src, dst, max_circuit_duration, max_circuit_bytes)
+}
